@@ -719,7 +719,7 @@ PARTS = {
                      "the int64 overflow edges; non-trivial = every class except 'nogrow-same'",
                 oracles={"tagged_add": o_add, "src_tagged_add": o_src_none},
                 classify=_first(classify_add, classify_src),
-                configs_quick=["pinned", "O0"]),
+                configs_quick=["pinned", "O0", "clang"]),
     "C14": dict(coq_props=["Properties_C14_tagged", "Properties_C14_tagged_src"], files=FILES,
                 generate=_chain(generate_getn, generate_src_get),
                 rule="bounded tagged reader: every truncation of valid encodings and random bytes in an exact-size "
